@@ -41,6 +41,13 @@ func Creator(separator rune) func(ctx context.Context, name string, options map[
 			}
 			fieldNames = make([]string, len(row))
 			copy(fieldNames, row)
+			seenFieldNames := make(map[string]bool)
+			for _, fieldName := range fieldNames {
+				if seenFieldNames[fieldName] {
+					return nil, physical.Schema{}, fmt.Errorf("duplicate column name in csv header: '%s'", fieldName)
+				}
+				seenFieldNames[fieldName] = true
+			}
 		}
 
 		fields := make([]octosql.Type, len(fieldNames))
